@@ -16,12 +16,10 @@ use elliptic_curve::hash2curve::{ExpandMsg, Expander};
 use serde::{Deserialize, Serialize};
 use subtle::{Choice, ConditionallySelectable, ConstantTimeEq, CtOption};
 
-#[cfg(feature = "q13")]
-pub const Q: u16 = 13;
-#[cfg(all(feature = "q31", not(feature = "q13")))]
-pub const Q: u16 = 31;
-#[cfg(not(any(feature = "q13", feature = "q31")))]
-pub const Q: u16 = 251;
+/// Order of the model group.  257 is prime and exceeds every byte value, so that *every* octet is a
+/// valid scalar low byte / point payload: decoding a canonically framed string never branches on its
+/// (symbolic) contents, which keeps container lengths concrete for the symbolic-execution engine.
+pub const Q: u32 = 257;
 
 pub mod model {
     //! counters readable by harnesses
@@ -41,31 +39,31 @@ pub mod model {
 }
 
 #[inline]
-fn red(x: u16) -> u8 {
-    (x % Q) as u8
+fn red(x: u32) -> u16 {
+    (x % Q) as u16
 }
 #[inline]
-fn addq(a: u8, b: u8) -> u8 {
-    red(a as u16 + b as u16)
+fn addq(a: u16, b: u16) -> u16 {
+    red(a as u32 + b as u32)
 }
 #[inline]
-fn subq(a: u8, b: u8) -> u8 {
-    red(a as u16 + Q - b as u16)
+fn subq(a: u16, b: u16) -> u16 {
+    red(a as u32 + Q - b as u32)
 }
 #[inline]
-fn mulq(a: u8, b: u8) -> u8 {
-    red(a as u16 * b as u16)
+fn mulq(a: u16, b: u16) -> u16 {
+    red(a as u32 * b as u32)
 }
 #[inline]
-fn negq(a: u8) -> u8 {
-    red(Q - a as u16)
+fn negq(a: u16) -> u16 {
+    red(Q - a as u32)
 }
 
 macro_rules! ct_impls {
     ($T:ident) => {
         impl ConditionallySelectable for $T {
             fn conditional_select(a: &Self, b: &Self, c: Choice) -> Self {
-                $T(u8::conditional_select(&a.0, &b.0, c))
+                $T(u16::conditional_select(&a.0, &b.0, c))
             }
         }
         impl ConstantTimeEq for $T {
@@ -116,27 +114,29 @@ macro_rules! binop_refs {
 // ---------------------------------------------------------------- Scalar
 /// Element of Z_Q.
 #[derive(Clone, Copy, PartialEq, Eq, Debug, Default, Hash, Serialize, Deserialize)]
-pub struct Scalar(pub u8);
+pub struct Scalar(pub u16);
 
 impl Scalar {
     pub const ZERO: Scalar = Scalar(0);
     pub const ONE: Scalar = Scalar(1);
     pub const BYTES: usize = 32;
 
-    /// canonical big-endian decoding: 31 zero bytes and a last byte < Q
+    /// canonical big-endian decoding: 30 zero bytes, then the value (0..=256) in two bytes
     pub fn from_be_bytes(bytes: &[u8; 32]) -> CtOption<Self> {
         let mut hi: u8 = 0;
         let mut i = 0;
-        while i < 31 {
+        while i < 30 {
             hi |= bytes[i];
             i += 1;
         }
-        let ok = hi == 0 && (bytes[31] as u16) < Q;
-        CtOption::new(Scalar(if ok { bytes[31] } else { 0 }), Choice::from(ok as u8))
+        let ok = hi == 0 && (bytes[30] == 0 || (bytes[30] == 1 && bytes[31] == 0));
+        let v = ((bytes[30] as u16) << 8) | bytes[31] as u16;
+        CtOption::new(Scalar(if ok { v } else { 0 }), Choice::from(ok as u8))
     }
     pub fn to_be_bytes(&self) -> [u8; 32] {
         let mut out = [0u8; 32];
-        out[31] = self.0;
+        out[30] = (self.0 >> 8) as u8;
+        out[31] = self.0 as u8;
         out
     }
     /// stand-in for OS2IP(okm) mod r: a cheap fold of all 48 bytes, reduced mod Q
@@ -147,10 +147,10 @@ impl Scalar {
             acc = acc.rotate_left(3) ^ (bytes[i] as u16);
             i += 1;
         }
-        Scalar((acc % Q) as u8)
+        Scalar((acc as u32 % Q) as u16)
     }
     pub fn random(mut rng: impl rand_core::RngCore) -> Self {
-        Scalar((rng.next_u32() % Q as u32) as u8)
+        Scalar((rng.next_u32() % Q) as u16)
     }
     pub fn invert(&self) -> CtOption<Self> {
         if self.0 == 0 {
@@ -161,13 +161,13 @@ impl Scalar {
         }
         #[cfg(kani)]
         {
-            let w: u8 = kani::any();
-            kani::assume((w as u16) < Q && mulq(w, self.0) == 1);
+            let w: u16 = kani::any();
+            kani::assume((w as u32) < Q && mulq(w, self.0) == 1);
             CtOption::new(Scalar(w), Choice::from(1))
         }
         #[cfg(not(kani))]
         {
-            let mut acc: u8 = 1;
+            let mut acc: u16 = 1;
             let mut k = 0;
             while k < Q - 2 {
                 acc = mulq(acc, self.0);
@@ -189,7 +189,7 @@ impl Scalar {
 ct_impls!(Scalar);
 impl From<u64> for Scalar {
     fn from(v: u64) -> Self {
-        Scalar((v % Q as u64) as u8)
+        Scalar((v % Q as u64) as u16)
     }
 }
 binop_refs!(Scalar, Scalar, Scalar, Add, add, |a, b| Scalar(addq(a.0, b.0)));
@@ -232,9 +232,9 @@ impl MulAssign for Scalar {
 macro_rules! group_model {
     ($P:ident, $A:ident, $CB:expr, $UB:expr) => {
         #[derive(Clone, Copy, PartialEq, Eq, Debug, Default, Hash, Serialize, Deserialize)]
-        pub struct $P(pub u8);
+        pub struct $P(pub u16);
         #[derive(Clone, Copy, PartialEq, Eq, Debug, Default, Hash, Serialize, Deserialize)]
-        pub struct $A(pub u8);
+        pub struct $A(pub u16);
 
         ct_impls!($P);
         ct_impls!($A);
@@ -283,8 +283,8 @@ macro_rules! group_model {
                         _ => 0,
                     }
                 };
-                let v = (hv(b[0]) * 16 + hv(b[1])) % (Q - 1) + 1;
-                CtOption::new($P(v as u8), Choice::from(1))
+                let v = (hv(b[0]) * 16 + hv(b[1])) % 256 + 1;
+                CtOption::new($P(v), Choice::from(1))
             }
             /// Model of hash_to_curve: one oracle query (len 128 like the real hash_to_field for
             /// two field elements), mapped to a non-identity element.
@@ -299,8 +299,8 @@ macro_rules! group_model {
                 let dsts = [dst];
                 let mut e = X::expand_message(&[msg], &dsts, 128).unwrap();
                 e.fill_bytes(&mut buf);
-                let v = (buf[0] as u16 ^ ((buf[1] as u16) << 3)) % (Q - 1) + 1;
-                $P(v as u8)
+                let v = ((buf[0] ^ buf[1].rotate_left(3)) as u16) + 1;
+                $P(v)
             }
             pub fn double(&self) -> Self {
                 $P(addq(self.0, self.0))
@@ -321,18 +321,25 @@ macro_rules! group_model {
             pub fn to_curve(&self) -> $P {
                 $P(self.0)
             }
-            /// canonical compressed form: flag byte 0x80 (0xC0 for the identity), zero padding,
-            /// discrete log in the last byte
+            /// canonical compressed form: the identity is [0xC0, 0, ..]; a non-identity element with
+            /// discrete log d (1..=256) is [0x80, 0, .., d - 1]
             pub fn to_compressed(&self) -> [u8; $CB] {
                 let mut out = [0u8; $CB];
-                out[0] = if self.0 == 0 { 0xC0 } else { 0x80 };
-                out[$CB - 1] = self.0;
+                if self.0 == 0 {
+                    out[0] = 0xC0;
+                } else {
+                    out[0] = 0x80;
+                    out[$CB - 1] = (self.0 - 1) as u8;
+                }
                 out
             }
             pub fn to_uncompressed(&self) -> [u8; $UB] {
                 let mut out = [0u8; $UB];
-                out[0] = if self.0 == 0 { 0x40 } else { 0x00 };
-                out[$UB - 1] = self.0;
+                if self.0 == 0 {
+                    out[0] = 0x40;
+                } else {
+                    out[$UB - 1] = (self.0 - 1) as u8;
+                }
                 out
             }
             pub fn from_compressed(bytes: &[u8; $CB]) -> CtOption<Self> {
@@ -343,10 +350,9 @@ macro_rules! group_model {
                     i += 1;
                 }
                 let v = bytes[$CB - 1];
-                let ok = mid == 0
-                    && ((bytes[0] == 0xC0 && v == 0)
-                        || (bytes[0] == 0x80 && v != 0 && (v as u16) < Q));
-                CtOption::new($A(if ok { v } else { 0 }), Choice::from(ok as u8))
+                let ok = mid == 0 && (bytes[0] == 0x80 || (bytes[0] == 0xC0 && v == 0));
+                let d = if bytes[0] == 0x80 { v as u16 + 1 } else { 0 };
+                CtOption::new($A(if ok { d } else { 0 }), Choice::from(ok as u8))
             }
             pub fn from_uncompressed(bytes: &[u8; $UB]) -> CtOption<Self> {
                 let mut mid: u8 = 0;
@@ -356,10 +362,9 @@ macro_rules! group_model {
                     i += 1;
                 }
                 let v = bytes[$UB - 1];
-                let ok = mid == 0
-                    && ((bytes[0] == 0x40 && v == 0)
-                        || (bytes[0] == 0x00 && v != 0 && (v as u16) < Q));
-                CtOption::new($A(if ok { v } else { 0 }), Choice::from(ok as u8))
+                let ok = mid == 0 && (bytes[0] == 0x00 || (bytes[0] == 0x40 && v == 0));
+                let d = if bytes[0] == 0x00 { v as u16 + 1 } else { 0 };
+                CtOption::new($A(if ok { d } else { 0 }), Choice::from(ok as u8))
             }
         }
         impl From<$A> for $P {
@@ -450,7 +455,7 @@ group_model!(G2Projective, G2Affine, 96, 192);
 
 // ---------------------------------------------------------------- pairing
 #[derive(Clone, Copy, PartialEq, Eq, Debug, Default)]
-pub struct G2Prepared(pub u8);
+pub struct G2Prepared(pub u16);
 impl From<G2Affine> for G2Prepared {
     fn from(a: G2Affine) -> Self {
         G2Prepared(a.0)
@@ -462,10 +467,10 @@ impl From<G2Projective> for G2Prepared {
     }
 }
 #[derive(Clone, Copy, PartialEq, Eq, Debug, Default)]
-pub struct MillerLoopResult(pub u8);
+pub struct MillerLoopResult(pub u16);
 /// Target group, written additively in the model (identity = 0).
 #[derive(Clone, Copy, PartialEq, Eq, Debug, Default)]
-pub struct Gt(pub u8);
+pub struct Gt(pub u16);
 ct_impls!(Gt);
 impl Gt {
     pub const IDENTITY: Gt = Gt(0);
@@ -482,7 +487,7 @@ impl MillerLoopResult {
     }
 }
 pub fn multi_miller_loop(terms: &[(&G1Affine, &G2Prepared)]) -> MillerLoopResult {
-    let mut acc: u8 = 0;
+    let mut acc: u16 = 0;
     let mut i = 0;
     while i < terms.len() {
         let (a, b) = terms[i];
@@ -500,12 +505,12 @@ mod tests {
     use super::*;
     #[test]
     fn field_axioms_exhaustive() {
-        for a in 0..Q as u8 {
+        for a in 0..Q as u16 {
             let sa = Scalar(a);
             if a != 0 {
                 assert_eq!(sa * sa.invert().unwrap(), Scalar::ONE);
             }
-            for b in 0..Q as u8 {
+            for b in 0..Q as u16 {
                 let sb = Scalar(b);
                 assert_eq!((sa + sb) - sb, sa);
                 assert_eq!(sa * sb, sb * sa);
